@@ -69,7 +69,13 @@ package file
 //@ ensures substrate-is-original: result == s.substrate
 //@ assigns nothing
 
+// C01: a childless dag-pb file node serves exactly the bytes of its Data field, whatever its
+// DataType says (the reference importer writes such leaves as Raw or as File); without a Data field
+// it is the empty file. (2 is schema.Maybe_Value.)
 //@ func file.newWrappedNode
+//@ prop C01
+//@ at return assert leaf-content-is-its-data-field: err == nil && ufd != nil && ufd.Data.m == 2 ==> result.(*file.singleNodeFile).Node == addrof(ufd.Data.v)
+//@ at return assert leaf-without-data-is-empty: err == nil && ufd != nil && ufd.Data.m != 2 ==> nodeBytesErr(result.(*file.singleNodeFile).Node) == nil && len(nodeBytes(result.(*file.singleNodeFile).Node)) == 0
 //@ ensures no-load: loads == old(loads)
 //@ ensures err == nil ==> result != nil && fresh(result) && typeis(result, "*file.singleNodeFile") && fileSubstrate(result) == substrate
 //@ ensures err != nil ==> result == nil
@@ -81,6 +87,16 @@ package file
 //@ ensures err != nil ==> result == nil
 //@ assigns nothing
 
+// C06: the preloading constructor reads the whole file through its reader, so every block a full
+// sequential read requests is requested here, and a block that cannot be loaded fails the call
+// instead of yielding a partially loaded node.
+//@ func file.NewUnixFSFileWithPreload
+//@ prop C06 C12 C20
+//@ at return assert whole-file-is-read: err == nil ==> drained(r)
+//@ ensures load-failure-is-returned: err == nil ==> loadFailed == old(loadFailed)
+//@ ensures err == nil ==> result != nil
+//@ ensures err != nil ==> result == nil
+
 // ---------------------------------------------------------------------------------------------
 // C17: the metadata memo of a shared multi-block file node is written only inside sync.Once.Do.
 //@ props C17
@@ -91,7 +107,7 @@ package file
 // C01 / C05: the position algebra of makeReader. Children wholly before the offset are skipped by
 // their declared sizes without being opened; the first reader appended is the child that contains
 // the offset, fast-forwarded to it; every later reader starts where the previous one ended.
-//@ props C01 C04 C05
+//@ props C01 C04 C05 C20
 
 //@ spec def nkids(f *file.shardNodeFile) int64 = listLen(lookupStr(f.substrate, "Links"))
 //@ spec def sizesOK(f *file.shardNodeFile) bool = (forall i int64 :: 0 <= i && i < nkids(f) ==> 0 <= declSize(f, i)) && (forall i int64 :: 0 <= i && i <= nkids(f) ==> 0 <= startOf(f, i) && startOf(f, i) < (1 << 62))
@@ -102,6 +118,7 @@ package file
 //@ requires 0 <= position
 //@ at call (*data._BlockSizes).LookupByIndex#1 assert block-size-of-this-link: callee_idx == int64(position)
 //@ at call (github.com/ipld/go-ipld-prime/datamodel.Node).LookupByString#2 assert raw-leaf-size-is-the-tsize-of-this-link: callee_key == "Tsize" && callee_recv == lnk
+//@ at call file.newDeferredFileNode#1 assert child-is-opened-only-when-its-size-is-not-declared: md == nil || err != nil || bsAtErr(addrof(md.BlockSizes), int64(position)) != nil || nodeIntErr(bsAt(addrof(md.BlockSizes), int64(position))) != nil
 //@ at call (io.Seeker).Seek#1 assert fallback-measures-to-the-end: callee_offset == 0 && callee_whence == 2
 //@ ensures err == nil ==> result0 == declSize(s, position)
 //@ ensures result1 != nil ==> fresh(result1)
